@@ -77,6 +77,18 @@ def ff_design(rng, name):
     L.append(f's.rl = [ Wire( 8 ) for _ in range({m}) ]')
     blocks.append([f's.rl[0] <<= s.i0 + s.rl[{m-1}]', f'for i in range({m-1}):', '  s.rl[i+1] <<= s.rl[i]'])
     feats.add('list-reg')
+  # a Bits register assigned from a struct-typed value (same width), and a register bank written by ONE block whose
+  # whole body is a loop with a branch inside (register-file style write enables)
+  if rng.random() < 0.5:
+    L += ['s.rb = Wire( 12 )', 's.ob = OutPort( 12 )', 'connect( s.ob, s.rb )']
+    blocks.append(['s.rb <<= s.i1'] if rng.random() < 0.6 else ['if s.en:', '  s.rb <<= s.i1', 'else:', '  s.rb <<= s.rb + 1'])
+    feats.add('bits-reg-from-struct')
+  if rng.random() < 0.5:
+    m = rng.randrange(2, 7)
+    L.append(f's.rf = [ Wire( 8 ) for _ in range({m}) ]')
+    L += [f's.orf = OutPort( 8 )', f'connect( s.orf, s.rf[{m-1}] )']
+    blocks.append([f'for i in range({m}):', '  if s.i0[i]:', f'    s.rf[i] <<= s.rf[{m-1} - i] + s.i0', '  elif s.en:', '    s.rf[i] <<= s.i0'])
+    feats.add('ff-loop-with-branch')
   # comb readers and nets fed by registers (forwarding through nets, slices)
   L += [f's.o0 = OutPort( {w} )', f's.o1 = OutPort( {w} )', f's.w0 = Wire( {w} )']
   L += ['connect( s.o0, s.r0 )', 'connect( s.w0, s.r1 )']
@@ -192,7 +204,11 @@ def run(ctx):
                     {'design_source': src, 'traceback': traceback.format_exc()[-2000:]})
   # Bits-level: sequences of <<= (ints and Bits, including values equal to the current / pending value) then _flip,
   # against the specification the generated __ilshift__/_flip are proved equal to
-  from pymtl3.datatypes import Bits
+  from pymtl3.datatypes import Bits, mk_bits, mk_bitstruct
+  _scls = {}
+  def struct_of(n, val):
+    if n not in _scls: _scls[n] = mk_bitstruct(f'SV{n}', {'hi': mk_bits(n - n // 2), 'lo': mk_bits(n // 2)})
+    return _scls[n].from_bits(Bits(n, val))
   seqs, smeta = [], []
   for t in range(300 if quick else 3000):
     n = rng.choice([1, 2, 4, 8, 8, 16, 33, 64])
@@ -202,12 +218,14 @@ def run(ctx):
     for j in range(rng.randrange(1, 4)):
       kind = rng.random()
       val = rng.choice([u0, x._next, 0, (1 << n) - 1, rng.getrandbits(n)])
-      if kind < 0.6: ops.append(('int', val))
-      elif kind < 0.75 and val >= (1 << (n - 1)): ops.append(('int', val - (1 << n)))     # negative int with the same bits
+      if kind < 0.5: ops.append(('int', val))
+      elif kind < 0.65 and val >= (1 << (n - 1)): ops.append(('int', val - (1 << n)))     # negative int with the same bits
+      elif kind < 0.8 and n >= 2: ops.append(('struct', n, val))                            # a bitstruct value of the same width
       else: ops.append(('bits', n, val))
       o = ops[-1]
-      x <<= (o[1] if o[0] == 'int' else Bits(n, o[2]))
+      x <<= (o[1] if o[0] == 'int' else Bits(n, o[2]) if o[0] == 'bits' else struct_of(n, o[2]))
     vis = int(x._uint); x._flip()
+    # a bitstruct operand is its packed value (to_bits): `x <<= struct` stages struct.to_bits()
     term = coq_list([f'(OInt {zlit(o[1])})' if o[0] == 'int' else f'(OBits {o[1]} {zlit(o[2])})' for o in ops])
     seqs.append(f'({n}, {zlit(u0)}, {term}, {zlit(vis)}, {zlit(int(x._uint))})'); smeta.append((n, u0, ops, vis, int(x._uint)))
     ctx.count(('bits-seq', n, u0, tuple(ops)), True, cls='bits-ilshift-seq')
